@@ -877,6 +877,20 @@ func genC18(c *Ctx) {
 			default:
 				ps[k] = append(ps[k], '=', '=')
 			}
+			if r.Intn(3) == 0 {
+				// surplus padding that brings the length back to a multiple of four ("3q2-====", "3g======"):
+				// a decoder that trims '=' before decoding unpadded would accept it
+				ps[k] = bytes.TrimRight(ps[k], "=")
+				for n := 0; n < 4*(1+r.Intn(2)); n++ {
+					ps[k] = append(ps[k], '=')
+				}
+				for len(ps[k])%4 != 0 {
+					ps[k] = append(ps[k], '=')
+				}
+				if bytes.Count(ps[k], []byte("=")) <= 2 {
+					ps[k] = append(ps[k], '=', '=', '=', '=')
+				}
+			}
 			tok = c18Join(ps...)
 		case 7:
 			tag = "mixed-alphabet"
@@ -893,6 +907,12 @@ func genC18(c *Ctx) {
 		c18Emit(c, "near-"+tag, 1, c18Tok{tok: tok})
 	}
 
+	// surplus padding, deterministic: every segment position x every data length residue
+	for _, sig := range []string{"3q2-====", "3g======", "AAA=====", "AAAA====", "3q2-========"} {
+		c18Emit(c, "near-surplus-padding", 1, c18Tok{tok: c18Join([]byte("eyJhbGciOiJub25lIn0"), []byte("e30"), []byte(sig))})
+		c18Emit(c, "near-surplus-padding", 1, c18Tok{tok: c18Join([]byte("eyJhbGciOiJub25lIn0"), []byte("e30===="), []byte("AA"))})
+		c18Emit(c, "near-surplus-padding", 1, c18Tok{tok: c18Join([]byte("eyJhbGciOiJub25lIn0====="), []byte("e30"), []byte("AA"))})
+	}
 	// a JSON object followed by anything that is not white space is not a JSON object: every suffix a
 	// streaming decoder, a "more data?" probe or a lenient scanner could overlook, in header and payload
 	for _, obj := range []string{`{"alg":"HS256","typ":"JWT"}`, `{}`, `{"sub":"x","exp":1700000000}`, "{\"alg\":\"none\"}\n"} {
